@@ -16,6 +16,8 @@ CLAIMED = {
             "1D M<=2 (quick) / M<=3, 2D 2x2 (quick) / 1x3, 2x1x2, 2x3 (thorough); QF_NRA", "DESIGN.md 5/C06"),
     "C05": ("Bounded symbolic model checking of __add__/__radd__/__iadd__, has_same_bins, FixedWidthBinning.adapt/_adapt/_force_new_min_max, Statistics.__add__, builtin sum and HistogramCollection.sum: field-by-field commutativity and associativity on arbitrary histograms (symbolic contents, errors2, missed, statistics, mixed dtypes), operands untouched, adaptive union on the common grid with symbolic width/shift/offsets, refusals, h1(A)+h1(B) against the reference over A and B, and chunk invariance of adaptive sums (the reduction the dask helper runs).",
             "M<=2 bins, 2-3 operands, adaptive bin counts 0..2, |A|<=2,|B|=1, N<=2 chunked values (quick); M<=3, counts 0..3, N<=3 (thorough). Real dask scheduling is outside (see C17)", "DESIGN.md 5/C05"),
+    "C14": ("Bounded symbolic model checking of the statistics block of calculate_1d_frequencies, Histogram1D.fill/fill_n/copy, Statistics.__add__/__mul__/mean/variance/std: the recorded sum, sum2, weight, min, max (and median after unweighted construction) equal the weighted sums over the raw symbolic data for every way of entering them; mean/variance/std are proved to be the population moments as functions of those fields; invalidation (NaN) after subtraction, array arithmetic, bare frequencies; empty histogram.",
+            "N<=2 values (quick) / N<=3, M=2 bins; QF_NRA degree<=3", "DESIGN.md 5/C14"),
 }
 
 REASONS_NOT_YET = "check not built yet (work in progress; see DESIGN.md section 8 build order)"
